@@ -12,7 +12,11 @@ import (
 // external to both implementations: the published perft counts shipped in
 // /repo/debug/standard.epd.
 func TestPerftAgainstPublishedNumbers(t *testing.T) {
-	f, err := os.Open("/repo/debug/standard.epd")
+	repo := os.Getenv("VERIF_REPO")
+	if repo == "" {
+		repo = "/repo"
+	}
+	f, err := os.Open(repo + "/debug/standard.epd")
 	if err != nil {
 		t.Skip(err)
 	}
